@@ -42,8 +42,9 @@ MODELS_USED = ["symnp.clip (ITE)", "EXP uninterpreted + axioms"]
 ASSUMPTIONS = ["box contract: balance points in [T_min,T_max] (superset of initial [T_min,T_max] and final [T_min_seg,T_max_seg] boxes and of the pinned c_hdd end case), "
                "full-model slopes >= 0, single-slope sign free, smoothing >= 0, intercept in [lo,hi]",
                "T_min <= T_min_seg <= T_max_seg <= T_max, T_min < T_max (get_T_bnds order statistics)",
+               "bounds cases: 10 ** OoM_numba(x, 'floor') is abstracted by its envelope (10 for x == 0, else some w with |x|/10 < w <= |x|)",
                "what NLopt actually returns, f_unc finiteness, T_*_seg being order statistics: outside the claim"]
-EXPECTED_REGIMES = ["raw balance points crossed", "reduced to single-slope", "reduced to flat", "smoothing kept"]
+EXPECTED_REGIMES = ["raw balance points crossed", "reduced to single-slope", "reduced to flat", "smoothing kept", "degenerate proposed bound widened"]
 
 KINDS = {
     "hdd_tidd_cdd_smooth": ["hdd_bp", "hdd_beta", "hdd_k", "cdd_bp", "cdd_beta", "cdd_k", "intercept"],
@@ -102,6 +103,7 @@ def cases(tier, seed):
     for k in KINDS:
         for sn in split_names(k):
             out.append(f"{k}/curve/{sn}")
+    out += ["hdd_tidd_cdd_smooth/bounds/x", "hdd_tidd_cdd/bounds/x"]
     return out
 
 
@@ -307,8 +309,88 @@ def structure_ok(r):
     return True, ""
 
 
+# ---------------------------------------------------------------- the optimiser box the assumptions rely on
+
+def bounds_rows(smooth):
+    return (7, [1, 2, 4, 5]) if smooth else (5, [1, 3])
+
+
+def replay_bounds(inp):
+    smooth = inp["smooth"]
+    n, idxs = bounds_rows(smooth)
+    env = inp["env"]
+    r = inp["row"]
+    new = np.array([[float(env.get(f"n{i}lo", 0.0)), float(env.get(f"n{i}hi", 0.0))] if i == r else [0.5, 2.0] for i in range(n)])
+    bnds = np.array([[float(env.get(f"b{i}lo", 0.0)), float(env.get(f"b{i}hi", 1.0))] if i == r else [0.0, 100.0] for i in range(n)])
+    out = htc._hdd_tidd_cdd_smooth_update_bnds(new.copy(), bnds.copy(), smooth)
+    bad = [i for i in idxs if out[i][0] < 0]
+    return bool(bad), f"updated optimiser bounds {out.tolist()} from {new.tolist()}: slope/smoothing rows {[i for i in idxs if out[i][0] < 0]} admit negative values"
+
+
+def run_bounds(case, smooth):
+    """_hdd_tidd_cdd_smooth_update_bnds + fix_identical_bnds for arbitrary proposed bounds: the box handed to the final
+    optimiser never admits a negative slope or smoothing parameter (the 'full-model slopes >= 0, smoothing >= 0' part of
+    the box contract assumed by the curve cases)"""
+    import opendsm.eemeter.models.daily.utilities.base_model as bm
+    n, idxs = bounds_rows(smooth)
+    names = [f"{a}{i}{b}" for a in "nb" for i in range(n) for b in ("lo", "hi")]
+    case.inputs = [z3.Real(x) for x in names] + [z3.Real(f"w{i}") for i in range(n)]
+    counter = [0]
+
+    class _Pow:
+        """10 ** OoM_numba(x, 'floor'): 10 for x == 0, else the power of ten w with |x|/10 < w <= |x| (which power is left open)"""
+
+        def __init__(self, x):
+            self.x = x
+
+        def __rpow__(self, base):
+            w = z3.Real(f"w{counter[0] % n}")
+            counter[0] += 1
+            xs = [lift(v) for v in np.array(self.x, dtype=object).reshape(-1)]
+            x0 = to_real(xs[0]) if not isinstance(xs[0], (int, float)) else z3.RealVal(str(float(xs[0])))
+            ax = z3.If(x0 >= 0, x0, -x0)
+            E.cur().assume(z3.And(w > 0, z3.Or(z3.And(x0 == 0, w == 10), z3.And(x0 != 0, w <= ax, 10 * w > ax))))
+            return SReal(w)
+
+    def run():
+        # the function treats the rows independently (sort, widening and clamp are per row): one slope/smoothing row is
+        # symbolic at a time (solver-chosen), the other proposed rows are ordinary concrete bounds
+        counter[0] = 0
+        r = F.choose("row", idxs)
+        def grid(rows):  # a genuine (n, 2) object array
+            from symv.carriers import SymND
+            a = np.empty((n, 2), dtype=object)
+            for i, (lo, hi) in enumerate(rows):
+                a[i, 0], a[i, 1] = lo, hi
+            return a.view(SymND)
+        new = grid([(SReal(z3.Real(f"n{i}lo")), SReal(z3.Real(f"n{i}hi"))) if i == r else (0.5, 2.0) for i in range(n)])
+        bnds = grid([(SReal(z3.Real(f"b{i}lo")), SReal(z3.Real(f"b{i}hi"))) if i == r else (0.0, 100.0) for i in range(n)])
+        return r, htc._hdd_tidd_cdd_smooth_update_bnds(new, bnds, smooth)
+
+    from . import dailyframe as F
+    fib = rebuild(bm.fix_identical_bnds, np=symnp, OoM_numba=lambda x, method="floor": _Pow(x))  # numba dispatcher -> same code object, python globals
+    with patched(htc, np=symnp, fix_identical_bnds=fib):
+        paths = case.explore(run)
+    for p in paths:
+        if p.outcome != "ret":
+            case.rep["harness_errors"].append(f"update_bnds raised {p.value!r}")
+            continue
+        r, out = p.value
+        rp = ("bounds", (lambda rr: lambda mdl: dict(smooth=smooth, row=rr, env=model_env(mdl, case.inputs)))(r))
+        case.twin(p)
+        case.prove(p, z3.And(*[to_real(lift(out[i][0])) >= 0 for i in idxs]),
+                   "the updated optimiser box never admits a negative slope or smoothing parameter", replay=rp)
+        case.regime("degenerate proposed bound widened", any("w" in str(lift(out[i][0])) for i in range(n) if isinstance(out[i][0], SReal)))
+    case.sample(dict(function="_hdd_tidd_cdd_smooth_update_bnds", smooth=smooth, paths=len(paths)))
+
+
+REPLAY["bounds"] = replay_bounds
+
+
 def run_case(case: Case, name: str):
-    kind, _, split = name.split("/")
+    kind, mode, split = name.split("/")
+    if mode == "bounds":
+        return run_bounds(case, kind.endswith("smooth"))
     V = raw_vars(kind)
     case.inputs = list(V.values())
     sa = split_assumptions(kind, V, split)
